@@ -203,7 +203,23 @@ def oracle_path(case):
             "counts": {"epochs": len(rec.epochs), "val_score_calls": val["calls"]}}
 
 
+@st.composite
+def large_fit_case(draw):
+    cls = draw(st.sampled_from(["LinearModel", "LinearMMD", "MLPModel", "SparseLinearMMD", "RIM", "Douglas"]))
+    s = draw(E.est_spec(classes=[cls], n_max=12, d_max=2, iter_max=2, k_max=3, hidden_max=3, n_min=4, cuts_max=1,
+                        gem_names=["mmd_ova", "mi", "tv_ova", "mmd_ovo"], allow_instance=False, kernel_forms=("named", "precomputed"),
+                        xkinds=("normal",)))
+    s["n"] = draw(st.integers(1030, 2300))
+    s["batch_size"] = draw(st.sampled_from([None, 64, 1000, 1024, 1025, 333]))
+    return {"spec": s, "mlcl": None}
+
+
 def subs():
+    big = [Sub("fit_large_n", large_fit_case(), oracle_fit, 24, 400, "n in 1030..2300 with several batch sizes")]
+    return big + _subs()
+
+
+def _subs():
     fam = {"linear": ["LinearModel", "LinearMMD", "LinearWasserstein", "RIM", "KernelRIM"],
            "mlp_sparse": ["MLPModel", "MLPMMD", "MLPWasserstein"] + E.SPARSE,
            "categorical_douglas": E.CATEGORICAL + ["Douglas"]}
